@@ -245,6 +245,21 @@ impl Scenario for Entropy {
                     // a restart: the process is new, the entropy device continues where it was
                     let prev = seams::set_entropy(Some(dev.clone()));
                     for i in 0..n / incs {
+                        // now and then a randomized request that the library REFUSES comes first (a split with threshold 1 or above
+                        // the share count, an encryption to the identity key): whatever it had drawn or reserved when it gave up
+                        // must not come back as the next call's randomness
+                        if i % 5 == 4 {
+                            let id_pk = if g.pk_len() == 48 { refimpl::Pt::id1() } else { refimpl::Pt::id2() }.to_bytes();
+                            let o = match (i / 5) % 4 {
+                                0 => rec.call(lib, g, Op::SplitEntropy, &[&fx.sk, &u64b(1), &u64b(3)]),
+                                1 => rec.call(lib, g, Op::EgEncrypt, &[&id_pk, &fx.sk]),
+                                2 => rec.call(lib, g, Op::SplitEntropy, &[&fx.sk, &u64b(4), &u64b(3)]),
+                                _ => rec.call(lib, g, Op::EgEncryptProof, &[&id_pk, &fx.sk]),
+                            };
+                            if !o.is_ok() {
+                                rec.fault("refused-randomized-request");
+                            }
+                        }
                         match call_once(rec, lib, g, op, &fx) {
                             Ok(e) => all.push((inc, i, e)),
                             Err(e) => {
